@@ -1,6 +1,7 @@
 (* Props/C18.v — the property theorems of C18 (TAP streams are interpreted per the
    TAP specification), and nothing else.  `parse lines` is list(TAPParser().parse(lines)),
    `verdict rc xf evs` the result TestRunTAP reports for the whole test. *)
+From Coq Require Import Permutation.
 From MV Require Import Base.Strs Tap.Lines Tap.Machine Tap.Verdict Tap.Spec Tap.Proofs Tap.WellFormed Tap.Render Tap.Reference.
 Open Scope N_scope.
 
@@ -126,22 +127,27 @@ Theorem C18_plan_count_mismatch : forall lines evs p,
 Proof. exact plan_count_mismatch. Qed.
 Print Assumptions C18_plan_count_mismatch.
 
-(* "duplicate or missing numbers": FALSE as stated for the code as it is (1,1,3 passes) ... *)
-Theorem C18_duplicate_missing_numbers_refuted :
-  exists lines evs, parse lines = Ok evs /\ numbers evs = [1; 1; 3] /\ faulty evs = false.
-Proof. exact numbering_refuted. Qed.
-Print Assumptions C18_duplicate_missing_numbers_refuted.
-(* ... what holds for every stream: highest number <> number of subtests is reported, *)
-Theorem C18_duplicate_missing_numbers_partial : forall lines evs,
+(* "duplicate or missing numbers ... produce an error/bail-out event": for every stream, whenever
+   the numbers of the subtests are not exactly 1..k in some order.  (Proved for the parser WITH
+   the fix pending/C18-numbering-undetected.diff, which tracks the set of numbers seen; the
+   unpatched parser lets 1,1,3 through, and the check reports that as a violation until the
+   fix is applied.) *)
+Theorem C18_duplicate_missing_numbers : forall lines evs,
+  parse lines = Ok evs ->
+  ~ Permutation (numbers evs) (iota 1 (length (numbers evs))) -> faulty evs = true.
+Proof. exact numbering_full. Qed.
+Print Assumptions C18_duplicate_missing_numbers.
+(* special cases that also hold for the unpatched parser: highest number <> number of subtests, *)
+Theorem C18_highest_number_differs : forall lines evs,
   parse lines = Ok evs -> maxnum evs <> count_tests evs -> faulty evs = true.
 Proof. exact numbering_partial. Qed.
-Print Assumptions C18_duplicate_missing_numbers_partial.
+Print Assumptions C18_highest_number_differs.
 (* and hence every gap when the numbers come in increasing order from 1 or above *)
-Theorem C18_missing_numbers_increasing_partial : forall lines evs,
+Theorem C18_missing_numbers_increasing : forall lines evs,
   parse lines = Ok evs -> incr_from 1 (numbers evs) ->
   numbers evs <> iota 1 (length (numbers evs)) -> faulty evs = true.
 Proof. exact numbering_increasing. Qed.
-Print Assumptions C18_missing_numbers_increasing_partial.
+Print Assumptions C18_missing_numbers_increasing.
 Example C18_increasing_guard_satisfiable : incr_from 1 [1; 2; 4] /\ [1; 2; 4] <> iota 1 3.
 Proof. split; [simpl; repeat split; discriminate|discriminate]. Qed.
 
@@ -159,16 +165,18 @@ Theorem C18_test_after_late_plan : forall lines evs a p b,
 Proof. exact test_after_late_plan. Qed.
 Print Assumptions C18_test_after_late_plan.
 
-(* "a second plan": at most one Plan event, and in a stream without YAML blocks a second
-   line of plan syntax gives an error *)
+(* "a second plan": at most one Plan event, and in EVERY stream a second line of plan syntax
+   gives an error; the only condition is that the two lines are not themselves part of a YAML
+   block (swallowed: read off the reference reading of the stream, Tap/Reference.v) *)
 Theorem C18_single_plan_event : forall lines evs, parse lines = Ok evs -> (count_plans evs <= 1)%nat.
 Proof. exact single_plan_event. Qed.
 Print Assumptions C18_single_plan_event.
 Theorem C18_second_plan : forall l1 x l2 y l3 d1 r1 d2 r2 evs,
-  no_yaml (l1 ++ x :: l2 ++ y :: l3) ->
+  swallowed (ref_run ref_init l1) x = false ->
+  swallowed (ref_run ref_init (l1 ++ x :: l2)) y = false ->
   line_class x = Some (LPlan d1 r1) -> line_class y = Some (LPlan d2 r2) ->
   parse (l1 ++ x :: l2 ++ y :: l3) = Ok evs -> In (EError KPlan2) evs.
-Proof. exact second_plan_reported. Qed.
+Proof. exact second_plan_reported_all. Qed.
 Print Assumptions C18_second_plan.
 
 (* "an unterminated YAML block": at the end of the stream, or broken by a line that neither
@@ -183,22 +191,26 @@ Theorem C18_unterminated_yaml_line : forall s l s' e,
 Proof. exact yaml_block_broken. Qed.
 Print Assumptions C18_unterminated_yaml_line.
 
-(* "a misplaced version line" *)
+(* "a misplaced version line": every stream, every version line outside YAML blocks *)
 Theorem C18_version_line : forall l1 x l2 ds evs,
-  no_yaml (l1 ++ x :: l2) -> line_class x = Some (LVersion ds) ->
+  swallowed (ref_run ref_init l1) x = false -> line_class x = Some (LVersion ds) ->
   parse (l1 ++ x :: l2) = Ok evs ->
   (l1 <> [] -> In (EError KVerPos) evs) /\
   (l1 = [] -> digits_val ds < 13 -> In (EError KVerLow) evs) /\
   (l1 = [] -> 13 <= digits_val ds -> In (EVersion (digits_val ds)) evs).
-Proof. exact misplaced_version_reported. Qed.
+Proof. exact version_line_all. Qed.
 Print Assumptions C18_version_line.
 
-(* "or `Bail out!`" *)
+(* "or `Bail out!`": every stream, every Bail out! line outside YAML blocks *)
 Theorem C18_bail_out : forall l1 x l2 m evs,
-  no_yaml (l1 ++ x :: l2) -> line_class x = Some (LBail m) ->
+  swallowed (ref_run ref_init l1) x = false -> line_class x = Some (LBail m) ->
   parse (l1 ++ x :: l2) = Ok evs -> In (EBail m) evs.
-Proof. exact bail_out_reported. Qed.
+Proof. exact bail_out_reported_all. Qed.
 Print Assumptions C18_bail_out.
+Example C18_swallowed_example :
+  swallowed (ref_run ref_init [s2l "TAP version 13"; s2l "ok 1"; s2l "  ---"]) (s2l "  Bail out!") = true /\
+  swallowed (ref_run ref_init [s2l "TAP version 13"; s2l "ok 1"; s2l "  ---"; s2l "  ..."]) (s2l "Bail out!") = false.
+Proof. exact swallowed_example. Qed.
 
 (* "No input makes the parser raise": FALSE for the code as it is — CPython refuses
    int()/str() beyond 4300 digits and the ValueError escapes ... *)
@@ -206,10 +218,14 @@ Theorem C18_no_raise_refuted :
   exists lines, parse lines = PyErr ValueError /\ length lines = 1%nat.
 Proof. exact no_raise_refuted. Qed.
 Print Assumptions C18_no_raise_refuted.
-Theorem C18_no_raise_str_refuted :
-  exists lines, parse lines = PyErr ValueError /\ forall l, In l lines -> (length l <= 4303)%nat.
-Proof. exact no_raise_refuted_str. Qed.
-Print Assumptions C18_no_raise_str_refuted.
+(* the second way: the end-of-stream message formats highest_test; it raises in every state
+   whose highest number has reached 10^4300 when the numbering error is due (such a number is
+   reached by a real stream: C18_whole_run_no_raise_refuted below) *)
+Theorem C18_eof_str_raises : forall s,
+  bailed_out s = false -> cur_plan s = None -> str_limit <= highest_test s -> num_tests s < str_limit ->
+  eof s = PyErr ValueError.
+Proof. exact eof_str_raises. Qed.
+Print Assumptions C18_eof_str_raises.
 (* ... true for every stream whose lines have at most 4299 characters (and fewer than
    10^4299 lines), and nothing but that ValueError can ever escape *)
 Theorem C18_no_raise_partial : forall lines, short_lines lines -> exists evs, parse lines = Ok evs.
@@ -230,3 +246,40 @@ Theorem C18_verdict : forall lines evs rc,
   is_bad (verdict rc false evs) = existsb bad_subtest (results evs) || faulty evs || negb (Z.eqb rc 0).
 Proof. exact verdict_bad_subtests. Qed.
 Print Assumptions C18_verdict.
+
+(* the same for a test marked should_fail, and the reported result in closed form for both: the
+   LAST event among {Error, Bailout, failing/unexpectedly passing subtest} decides (last_res) *)
+Theorem C18_verdict_closed_form : forall rc xf evs,
+  verdict rc xf evs =
+  match last_res evs with
+  | Some ERROR => ERROR
+  | Some _ => if xf then EXPECTEDFAIL else FAIL
+  | None =>
+      if all_skipped evs then (if negb (Z.eqb rc 0) then ERROR else SKIP)
+      else if negb (Z.eqb rc 0) then ERROR else if xf then UNEXPECTEDPASS else OK
+  end.
+Proof. exact verdict_closed_form. Qed.
+Print Assumptions C18_verdict_closed_form.
+Theorem C18_verdict_should_fail : forall evs rc,
+  is_bad (verdict rc true evs) =
+  match last_res evs with
+  | Some ERROR => true
+  | Some _ => false
+  | None => negb (Z.eqb rc 0) || negb (all_skipped evs)
+  end.
+Proof. exact verdict_should_fail. Qed.
+Print Assumptions C18_verdict_should_fail.
+
+(* the whole run (parser + TestRunTAP.parse, which formats f'subtest {number}' for unnamed
+   subtests) and CPython's conversion limit: FALSE that a result is always reported (the parser
+   survives '1..5', 'ok 9…9' (4300 nines), 'ok' but TestRunTAP does not) ... *)
+Theorem C18_whole_run_no_raise_refuted :
+  exists lines evs, parse lines = Ok evs /\ run_verdict 0 false lines = PyErr ValueError /\
+                    str_limit <= maxnum evs.
+Proof. exact run_verdict_refuted. Qed.
+Print Assumptions C18_whole_run_no_raise_refuted.
+(* ... true under the same guard as for the parser alone *)
+Theorem C18_whole_run_no_raise_partial : forall lines rc xf,
+  short_lines lines -> exists r, run_verdict rc xf lines = Ok r.
+Proof. exact run_verdict_partial. Qed.
+Print Assumptions C18_whole_run_no_raise_partial.
